@@ -23,7 +23,7 @@ v("c01-index-inner-at-sum", ["C01"], [(P, "exp.Index = p.parseExpression(LOWEST)
 v("c01-prefix-operand-lowest", ["C01"], [(P, "exp.Right = p.parseExpression(PREFIX)", "exp.Right = p.parseExpression(LOWEST)")], rule="R-PRATT")
 v("c01-swap-enum-sum-product", ["C01"], [(P, "\tSUM           // +\n\tPRODUCT       // *", "\tPRODUCT       // *\n\tSUM           // +")], rule="R-PRATT")
 v("c01-benign-enum-gaps", ["C01"], [(P, "\t_ int = iota\n\tLOWEST", "\t_ int = iota * 3\n\tLOWEST")], expect="silent", note="levels renumbered with gaps: same order")
-v("c01-benign-if-cond-lowest-const", ["C01"], [(P, "stmt.Condition = p.parseExpression(LOWEST)\n\n\tif !p.expectPeek(token.RPAREN) { // move to \")\"\n\t\treturn nil\n\t}\n\n\tp.nextToken() // skip \")\"\n\n\tstmt.Consequence", "stmt.Condition = p.parseExpression(1)\n\n\tif !p.expectPeek(token.RPAREN) { // move to \")\"\n\t\treturn nil\n\t}\n\n\tp.nextToken() // skip \")\"\n\n\tstmt.Consequence")], expect="silent")
+v("c01-benign-if-cond-lowest-const", ["C01"], [(P, "stmt.Condition = p.parseExpression(LOWEST)\n\n\tif !p.expectPeek(token.RPAREN) { // move to \")\"\n\t\treturn nil\n\t}\n\n\tstmt.Consequence", "stmt.Condition = p.parseExpression(1)\n\n\tif !p.expectPeek(token.RPAREN) { // move to \")\"\n\t\treturn nil\n\t}\n\n\tstmt.Consequence")], expect="silent")
 
 # ---- C02
 U = "evaluator/utils.go"
